@@ -6,6 +6,7 @@
 //   vtx x w d                      insert_edge_as_flag(x, x, w, d, added)        (linked option sets only)
 //   edge u v w d                   insert_edge_as_flag(u, v, w, d, added)
 //   mfnd                           make_filtration_non_decreasing()
+//   chk d                          no operation, dump only
 //   ripsp d thr | x,y,.. x,y,..    fresh tree; Rips_complex<Fv>(integer points, thr, squared Euclidean distance).create_complex(st, d)
 //   ripsm d thr | r1 ; r2 ; ...    fresh tree; Rips_complex<Fv>(lower triangular matrix, thr).create_complex(st, d)
 // stdout: one line per input line:  "<ret> dim=<dimension()> ub=<upper_bound_dimension()> nv=<num_vertices()> n=<num_simplices()> S=<v,v:val;...>
@@ -215,8 +216,14 @@ int main() {
           vh::emit("unsupported");
         }
       } else if (op == "mfnd") {
-        bool r = st->make_filtration_non_decreasing();
-        vh::emit(std::string(r ? "1 " : "0 ") + dump(*st));
+        if constexpr (Opt::store_filtration) {   // does not compile without stored filtration values
+          bool r = st->make_filtration_non_decreasing();
+          vh::emit(std::string(r ? "1 " : "0 ") + dump(*st));
+        } else {
+          vh::emit("unsupported");
+        }
+      } else if (op == "chk") {                  // plain dump (the oracle prints the specification of the accumulated graph here)
+        vh::emit("ok " + dump(*st));
       } else if (op == "ripsp" || op == "ripsm") {
         int d;
         double thr;
@@ -256,6 +263,8 @@ int main() {
       }
     } catch (const std::invalid_argument&) {
       vh::emit("EXC invalid_argument " + dump(*st));
+    } catch (const char*) {   // GUDHI_CHECK in a non-debug build of a tree without stored filtration values
+      vh::emit("EXC cstr");
     } catch (const std::exception&) {
       vh::emit("EXC other");
     }
